@@ -19,6 +19,20 @@ def module(clause_txt, body):
             % (clause_txt, body))
 
 
+NEST_VARIANTS = [('SEQUENCE', '', 2), ('SEQUENCE', '[9] IMPLICIT ', 2), ('SEQUENCE', '[9] EXPLICIT ', 2), ('SET', '[9] IMPLICIT ', 2),
+                 ('CHOICE', '[9] EXPLICIT ', 2), ('SEQUENCE', '[9] IMPLICIT ', 3), ('SEQUENCE', '[9] EXPLICIT ', 3), ('SEQUENCE', '', 3)]
+
+
+def nested_body(variant, tagged):
+    """the tagged component sits in an anonymous nested type whose own component may carry a tag with a keyword"""
+    cont, ptag, depth = variant
+    inner = '%s { a %s, b BOOLEAN }' % (cont, tagged)
+    if depth == 3:
+        inner = 'SEQUENCE { n %s%s, q NULL }' % (ptag, inner)
+        return 'Tt ::= SEQUENCE { m %s }' % inner, 'TtMN'
+    return 'Tt ::= SEQUENCE { n %s%s }' % (ptag, inner), 'TtN'
+
+
 def body_for(pos, tagged):
     if pos == 'TypeAssignment':
         return 'Tt ::= %s' % tagged
@@ -47,7 +61,7 @@ def find_item(mod, name):
     return None
 
 
-def observe(mod, pos):
+def observe(mod, pos, nested_name=None):
     if pos == 'TypeAssignment':
         it = find_item(mod, 'Tt')
         return None if it is None else ('ok', tag_attr(it['attrs']))
@@ -58,8 +72,11 @@ def observe(mod, pos):
         it = find_item(mod, 'Tt')
         return None if it is None else ('ok', tag_attr(it['variants'][0]['attrs']))
     if pos == 'NestedComponent':
-        it = find_item(mod, 'TtN')
-        return None if it is None else ('ok', tag_attr(it['fields'][0]['attrs']))
+        it = find_item(mod, nested_name or 'TtN')
+        if it is None:
+            return None
+        first = it['fields'][0] if it['kind'] == 'struct' else it['variants'][0]
+        return ('ok', tag_attr(first['attrs']))
     it = find_item(mod, 'AnonymousTt')
     if it is None:
         # element type is a plain reference: no item of its own, the tag has nowhere to go
@@ -82,11 +99,12 @@ def judge(ck, cases, results):
             ck.violation('impl-violation', c['sources'][0], impl={k: v for k, v in r.items() if k != 'generated'},
                          why='legal tagged module rejected or generated code unparsable')
             continue
-        mod = [m for m in r['items'] if m.get('kind') == 'mod'][0]
+        mods = [m for m in r['items'] if m.get('kind') == 'mod']
+        mod = next((m for m in mods if m['name'] == c.get('_mod')), mods[0])
         if c['_fam'] == 'tag':
             clause, kw, cls, n, pos, kind = c['_m']
             ck.count(pos)
-            o = observe(mod, pos)
+            o = observe(mod, pos, c.get('_nested_name'))
             if o is None:
                 ck.violation('impl-violation', c['sources'][0], why='the tagged type was not generated', warnings=r.get('warnings'))
                 continue
@@ -145,6 +163,27 @@ def run(ck):
         tagged = '[%s%d]%s %s' % (clstxt, n, kwtxt, ktxt)
         cases.append({'op': 'compile', 'sources': [module(ctxt, body_for(pos, tagged))], '_fam': 'tag',
                       '_m': (clause, kw, cls, n, pos, kind)})
+    # deeper nesting, parents tagged with their own keyword (the parent's keyword must not leak into the child)
+    for (clause, ctxt), (kw, kwtxt), (cls, clstxt), variant, (kind, ktxt) in itertools.product(
+            CLAUSES, KWS, CLASSES[:2], NEST_VARIANTS, [('Primitive', 'INTEGER'), ('RefSequence', 'Rs')]):
+        n = ck.rng.randint(0, 30)
+        tagged = '[%s%d]%s %s' % (clstxt, n, kwtxt, ktxt)
+        body, nname = nested_body(variant, tagged)
+        cases.append({'op': 'compile', 'sources': [module(ctxt, body)], '_fam': 'tag', '_nested_name': nname,
+                      '_m': (clause, kw, cls, n, 'NestedComponent', kind)})
+    # two modules with different TAGS clauses in one compilation: nothing leaks from one into the other
+    for (c1, t1), (c2, t2) in itertools.product(CLAUSES, CLAUSES):
+        for first, second in (('Ma', 'Mb'), ('Mz', 'Mb')):
+            k = ck.rng.randint(1, 4)
+            tagged = [ck.rng.random() < 0.3 for _ in range(k)]
+            comps = ', '.join('c%d %s%s' % (i, '[%d] ' % i if t else '', 'INTEGER') for i, t in enumerate(tagged))
+            other = '%s DEFINITIONS %s ::= BEGIN\nOo ::= SEQUENCE { x INTEGER, y BOOLEAN }\nEND\n' % (first, t1)
+            src = other + '%s DEFINITIONS %s ::= BEGIN\nRs ::= SEQUENCE { z NULL }\nTt ::= SEQUENCE { %s }\nEND\n' % (second, t2, comps)
+            cases.append({'op': 'compile', 'sources': [src], '_fam': 'auto', '_mod': second.lower(), '_m': (c2, tagged, False, 'SEQUENCE')})
+            n = ck.rng.randint(0, 30)
+            src2 = other + '%s DEFINITIONS %s ::= BEGIN\nTt ::= [APPLICATION %d] CHOICE { y NULL, w BOOLEAN }\nEND\n' % (second, t2, n)
+            cases.append({'op': 'compile', 'sources': [src2], '_fam': 'tag', '_mod': second.lower(),
+                          '_m': (c2, None, 'Application', n, 'TypeAssignment', 'InlineChoice')})
     for _ in range(300 if ck.tier == 'quick' else 6000):
         clause, ctxt = ck.rng.choice(CLAUSES)
         k = ck.rng.randint(1, 5)
